@@ -52,6 +52,21 @@ def gen_textin_consts():
     if not mm:
         raise vlib.BuildError("FSG_MODEL_COMMENT_CHAR not found in fsg_model.c")
     comment = ord(mm.group(1))
+    # the range test on the declared state count in fsg_model_read_s3file: `n_state = strtol(val, ...);
+    # if (endptr == val || n_state < 0 [|| n_state > BOUND])`; BOUND (absent in the pinned tree: the
+    # `long` was silently truncated to int32) becomes a constant of the model
+    fm = _cpp("src/fsg_model.c")
+    mm = re.search(r"n_state\s*=\s*strtol\s*\(\s*val\s*,\s*&endptr\s*,\s*10\s*\)\s*;\s*if\s*\(\s*endptr\s*==\s*val\s*\|\|\s*n_state\s*<\s*0\s*"
+                   r"(?:\|\|\s*n_state\s*>\s*([^|&{};]*?))?\)\s*\{", fm)
+    if not mm:
+        raise vlib.BuildError("fsg_model_read_s3file: the test on the NUM_STATES value was not found in the expected form")
+    nmax = None
+    if mm.group(1) is not None:
+        lit = re.sub(r"\(\s*(?:int32|int|long|int32_t)\s*\)|[()\s]|[uUlL]+$", "", mm.group(1))
+        try:
+            nmax = int(lit, 0)
+        except ValueError:
+            raise vlib.BuildError(f"fsg_model_read_s3file: upper bound of NUM_STATES is not an integer constant: {mm.group(1)!r}")
     sf = _cpp("src/strfuncs.c")
     mm = re.search(r'isspace_c\s*\(char ch\)\s*\{\s*return\s*\(\s*strchr\s*\(\s*"((?:[^"\\]|\\.)*)"\s*,\s*ch\s*\)\s*!=', sf)
     if not mm:
@@ -98,6 +113,8 @@ def gen_textin_consts():
             "namespace SSVerif.Generated.TextIn\n"
             + "".join(f"def fsg{n.title().replace('_', '')}Decl : List UInt8 := {v}\n" for n, v in kw.items())
             + f"def fsgCommentChar : UInt8 := {comment}\n"
+            f"/-- upper bound tested on the declared state count by the FSG reader (`none`: no test, the value is truncated to int32) -/\n"
+            f"def fsgNStatesMax : Option Nat := {'none' if nmax is None else 'some ' + str(nmax)}\n"
             f"/-- the literal of `isspace_c` (its terminating NUL is found by `strchr` as well) -/\n"
             f"def isspaceChars : List UInt8 := {space}\n"
             f"def trimChars : List UInt8 := {trim}\n"
